@@ -12,12 +12,13 @@
  * used only to validate that simulation (C10 fidelity pass): same scenario, same
  * fault point, the real gxz binary in a real directory.
  *
- * usage: ptstep -d DIR -l LOG [-k N -w before|after|mid [-m BYTES]] [-f N -e ERRNO [-p BYTES]] [-s N] -- cmd args...
+ * usage: ptstep -d DIR -l LOG [-u UID] [-k N -w before|after|mid [-m BYTES]] [-f N -e ERRNO [-p BYTES]] [-s N] -- cmd args...
  * LOG gets one line per counted call: "<n> <kind> <path> <bytes>", then "exit <code>" or "signal <n>".
  */
 #define _GNU_SOURCE
 #include <errno.h>
 #include <fcntl.h>
+#include <grp.h>
 #include <limits.h>
 #include <signal.h>
 #include <stdio.h>
@@ -38,6 +39,7 @@ static int kill_when; /* 0 before 1 after 2 mid */
 static long mid_bytes, partial = -1;
 static int fail_errno = ENOSPC;
 static pid_t child;
+static long run_uid; /* > 0: the command runs under this uid/gid (dropped before exec) */
 static int cont_active;
 static long cont_fd;
 
@@ -258,6 +260,7 @@ int main(int argc, char **argv) {
 		else if (!strcmp(argv[i], "-e") && i + 1 < argc) fail_errno = errno_of(argv[++i]);
 		else if (!strcmp(argv[i], "-p") && i + 1 < argc) partial = atol(argv[++i]);
 		else if (!strcmp(argv[i], "-s") && i + 1 < argc) sig_at = atol(argv[++i]);
+		else if (!strcmp(argv[i], "-u") && i + 1 < argc) run_uid = atol(argv[++i]);
 		else { fprintf(stderr, "ptstep: bad option %s\n", argv[i]); return 3; }
 	}
 	if (i >= argc - 1) { fprintf(stderr, "usage: ptstep -d DIR -l LOG [...] -- cmd args\n"); return 3; }
@@ -270,6 +273,9 @@ int main(int argc, char **argv) {
 	if (child < 0) { perror("fork"); return 3; }
 	if (child == 0) {
 		if (chdir(dir)) _exit(126);
+		if (run_uid > 0) {
+			if (setgroups(0, NULL) || setgid(run_uid) || setuid(run_uid)) _exit(125);
+		}
 		ptrace(PTRACE_TRACEME, 0, 0, 0);
 		raise(SIGSTOP);
 		execvp(argv[i], argv + i);
